@@ -152,6 +152,23 @@ class Builder:
             s = build_struct(t['s'])
             blk = jnp.asarray(np.array(p[2:], dtype=np.float64).reshape(r, c), dtype=s.dtype)
             return dense.DenseBlockDiagonalOperator(blk, s, 'ij,j->i')
+        if k == 'obs':
+            # a small CSR .npz file in the format ToastObservationMatrixOperator reads
+            import tempfile
+
+            import scipy.sparse as sp
+            from furax.toast.obs_matrix import ToastObservationMatrixOperator
+
+            dt = np.dtype(build_struct(t['s']).dtype)          # the file decides the dtype of the operator
+            m = sp.csr_matrix(np.array(p[2:], dtype=dt).reshape(p[0], p[1]))
+            with tempfile.NamedTemporaryFile(suffix='.npz', delete=False) as f:
+                np.savez(f, data=m.data, indices=m.indices, indptr=m.indptr, shape=np.array(m.shape), format='csr')
+                path = f.name
+            try:
+                return ToastObservationMatrixOperator(path)
+            finally:
+                import os
+                os.unlink(path)
         if k == 'toep':
             s = build_struct(t['s'])
             return toeplitz.SymmetricBandToeplitzOperator(
@@ -198,6 +215,8 @@ class Builder:
         if k == 'pol':
             return polarizers.LinearPolarizerOperator(build_struct(t['s']))
         if k == 'T':
+            if ch[0]['k'] == 'obs':
+                return self.build(ch[0]).T        # the hand-written ToastObservationMatrixTransposeOperator
             return core.TransposeOperator(self.build(ch[0]))
         if k == 'RT':
             return axes.ReshapeTransposeOperator(self.build(ch[0]))
@@ -293,8 +312,11 @@ class Builder:
                 return term('hwp', project_struct(op.in_structure()))
             if cls == 'LinearPolarizerOperator':
                 return term('pol', project_struct(op.in_structure()))
-            if cls == 'TransposeOperator':
+            if cls in ('TransposeOperator', 'ToastObservationMatrixTransposeOperator'):
                 return term('T', ch=[self.project(op.operator)])
+            if cls == 'ToastObservationMatrixOperator':
+                m = np.asarray(op.matrix.todense())
+                return term('obs', project_struct(op.in_structure()), [m.shape[0], m.shape[1]] + [int(round(v)) for v in m.ravel()])
             if cls == 'ReshapeTransposeOperator':
                 return term('RT', ch=[self.project(op.operator)])
             if cls == 'InverseOperator':
